@@ -6,13 +6,19 @@
 (*   mode   "run" (no -o: the Lua goes to a child process `lua`),          *)
 (*          "stdout" (-o -), "file" (-o FILE)                              *)
 (*   path   state of the output path before the command.  FILE: "absent",  *)
-(*          "existing" (old content), "missing_parent", "is_directory",    *)
+(*          "existing_shorter" / "existing_equal" / "existing_longer" (old *)
+(*          content shorter than / as long as / longer than the program    *)
+(*          that is to be written), "missing_parent", "is_directory",      *)
 (*          "unwritable_device" (can be opened, every write fails);        *)
 (*          stdout: "none" (writable) or "unwritable"; run mode: "none"    *)
-(*   req    --require M given,  nostd  --no-std given                      *)
-(*   prog   the program: accepted | rejected with n errors | accepted but  *)
-(*          failing at run time (assert, unreachable, other Lua error),    *)
-(*          and whether it uses the standard library                       *)
+(*   req    --require M given, marg: how M is spelled on the command line  *)
+(*          (a name, a file name, a path, dotted names, a double suffix);  *)
+(*   nostd  --no-std given                                                 *)
+(*   prog   the program: accepted | rejected, written to have n errors     *)
+(*          (n = 1, 2 and around the 8-bit wrap of an exit status: 255,    *)
+(*          256, 257, 512) | accepted but failing at run time (assert,     *)
+(*          unreachable, other Lua error), and whether it uses the         *)
+(*          standard library                                               *)
 (*                                                                         *)
 (* The machine is what the property's words say, not how sylt is coded:    *)
 (* the command parses its arguments, compiles, then - depending on mode -  *)
@@ -46,45 +52,61 @@ dvars == <<cfg, pc, fs, chunk, soprog, sorun, errs, printed, exit, hist>>
 ---------------------------------------------------------------------------
 (* The configuration space, index-addressed (mixed radix, least significant first) *)
 Sinks == <<[mode |-> "run", path |-> "none"], [mode |-> "stdout", path |-> "none"],
-           [mode |-> "file", path |-> "absent"], [mode |-> "file", path |-> "existing"],
+           [mode |-> "file", path |-> "absent"], [mode |-> "file", path |-> "existing_shorter"],
            [mode |-> "file", path |-> "missing_parent"], [mode |-> "file", path |-> "is_directory"],
-           [mode |-> "file", path |-> "unwritable_device"], [mode |-> "stdout", path |-> "unwritable"]>>
+           [mode |-> "file", path |-> "unwritable_device"], [mode |-> "stdout", path |-> "unwritable"],
+           [mode |-> "file", path |-> "existing_equal"], [mode |-> "file", path |-> "existing_longer"]>>
+ExistingPaths == {"existing_shorter", "existing_equal", "existing_longer"}
 
 Progs == <<[k |-> "acc", n |-> 0, why |-> "none"],
            [k |-> "rej", n |-> 1, why |-> "none"], [k |-> "rej", n |-> 2, why |-> "none"],
-           [k |-> "rej", n |-> 3, why |-> "none"],
+           [k |-> "rej", n |-> 255, why |-> "none"], [k |-> "rej", n |-> 256, why |-> "none"],
+           [k |-> "rej", n |-> 257, why |-> "none"], [k |-> "rej", n |-> 512, why |-> "none"],
            [k |-> "rt", n |-> 0, why |-> "assert"], [k |-> "rt", n |-> 0, why |-> "unreachable"],
            [k |-> "rt", n |-> 0, why |-> "luaerr"]>>
 
+\* the spellings of M in `--require M` (selector 0 = no --require)
+Mods == <<"c20mod", "c20mod.lua", "c20dir/c20mod.lua", "c20ext.helpers", "c20a.b.c", "c20mod.lua.lua">>
+
 NSinks == Len(Sinks)
 NProgs == Len(Progs)
-NBase  == NSinks * 2 * 2 * NProgs * 2        \* 448
+NReqs  == Len(Mods) + 1
+NBase  == NSinks * NReqs * 2 * NProgs * 2        \* 10 * 7 * 2 * 10 * 2 = 2800
 
-MkCfg(s, req, nostd, p, std) ==
-    [mode |-> Sinks[s].mode, path |-> Sinks[s].path, req |-> req, nostd |-> nostd,
+\* r \in 0..Len(Mods)
+MkCfg(s, r, nostd, p, std) ==
+    [mode |-> Sinks[s].mode, path |-> Sinks[s].path, req |-> (r > 0), marg |-> (IF r = 0 THEN "" ELSE Mods[r]), nostd |-> nostd,
      pk |-> Progs[p].k, pn |-> Progs[p].n, why |-> Progs[p].why, std |-> std]
 
 \* b \in 0..NBase-1
 CaseBase(b) ==
-    MkCfg((b % NSinks) + 1, ((b \div NSinks) % 2) = 1, ((b \div (NSinks * 2)) % 2) = 1,
-          ((b \div (NSinks * 4)) % NProgs) + 1, ((b \div (NSinks * 4 * NProgs)) % 2) = 1)
+    MkCfg((b % NSinks) + 1, (b \div NSinks) % NReqs, ((b \div (NSinks * NReqs)) % 2) = 1,
+          ((b \div (NSinks * NReqs * 2)) % NProgs) + 1, ((b \div (NSinks * NReqs * 2 * NProgs)) % 2) = 1)
 
-BaseIndex(s, req, nostd, p, std) ==
-    (s - 1) + NSinks * ((IF req THEN 1 ELSE 0) + 2 * ((IF nostd THEN 1 ELSE 0)
+BaseIndex(s, r, nostd, p, std) ==
+    (s - 1) + NSinks * (r + NReqs * ((IF nostd THEN 1 ELSE 0)
         + 2 * ((p - 1) + NProgs * (IF std THEN 1 ELSE 0))))
 
 SinkNo(c) == CHOOSE s \in 1..NSinks : Sinks[s].mode = c.mode /\ Sinks[s].path = c.path
 ProgNo(c) == CHOOSE p \in 1..NProgs : Progs[p].k = c.pk /\ Progs[p].n = c.pn /\ Progs[p].why = c.why
-IndexOfCfg(c) == BaseIndex(SinkNo(c), c.req, c.nostd, ProgNo(c), c.std)
+ReqNo(c)  == IF ~c.req THEN 0 ELSE CHOOSE r \in 1..Len(Mods) : Mods[r] = c.marg
+IndexOfCfg(c) == BaseIndex(SinkNo(c), ReqNo(c), c.nostd, ProgNo(c), c.std)
 
-AllConfigs == {MkCfg(s, r, n, p, u) : s \in 1..NSinks, r \in BOOLEAN, n \in BOOLEAN, p \in 1..NProgs, u \in BOOLEAN}
+AllConfigs == {MkCfg(s, r, n, p, u) : s \in 1..NSinks, r \in 0..Len(Mods), n \in BOOLEAN, p \in 1..NProgs, u \in BOOLEAN}
 Universe == {CaseBase(b) : b \in 0..(NBase - 1)}
+
+\* "a require of M": M without one trailing ".lua" (a module name or the name of its file may be given)
+StripLua(m) == IF Len(m) > 4 /\ SubSeq(m, Len(m) - 3, Len(m)) = ".lua" THEN SubSeq(m, 1, Len(m) - 4) ELSE m
+ExpectedModule(c) == StripLua(c.marg)
 
 \* evaluated by TLC as an ASSUME of the MC wrappers: the index map enumerates exactly the cross product
 UniverseWellFormed ==
     /\ Universe = AllConfigs
     /\ Cardinality(Universe) = NBase
     /\ \A b \in 0..(NBase - 1) : IndexOfCfg(CaseBase(b)) = b
+    /\ \A i, j \in 1..Len(Mods) : (i # j) => Mods[i] # Mods[j]
+    /\ \A c \in AllConfigs : c.req <=> (c.marg # "")
+    /\ <<StripLua("m"), StripLua("m.lua"), StripLua("d/m.lua"), StripLua("e.h"), StripLua("m.lua.lua")>> = <<"m", "m", "d/m", "e.h", "m.lua">>
     /\ \A c \in AllConfigs : /\ c.mode = "file" => c.path \notin {"none", "unwritable"}
                              /\ c.mode = "stdout" => c.path \in {"none", "unwritable"}
                              /\ c.mode = "run" => c.path = "none"
@@ -96,7 +118,7 @@ UniverseWellFormed ==
 Eff(c) == IF c.nostd /\ c.std THEN "rej" ELSE c.pk
 
 CompileSucceeds(c) == Eff(c) # "rej"
-Writable(c) == c.path \in {"none", "absent", "existing"}     \* can the requested output be written?
+Writable(c) == c.path \in ({"none", "absent"} \cup ExistingPaths)     \* can the requested output be written?
 
 \* "compilation (and, in run mode, execution) succeeded", plus: the requested output could be produced
 Success(c) == /\ CompileSucceeds(c)
@@ -110,7 +132,7 @@ ExitFixed(c) == StrictSink \/ ~(c.mode = "stdout" /\ c.path = "unwritable" /\ Co
 InitFs(c) == CASE c.path \in {"none", "unwritable"} -> "none"
                [] c.path = "unwritable_device" -> "device"
                [] c.path = "absent" -> "absent"
-               [] c.path = "existing" -> "old"
+               [] c.path \in ExistingPaths -> "old"
                [] c.path = "missing_parent" -> "noparent"
                [] c.path = "is_directory" -> "dir"
 
@@ -120,7 +142,8 @@ InitFs(c) == CASE c.path \in {"none", "unwritable"} -> "none"
 ErrCounts(c) == 1..MaxErrs
 
 \* The emitted program is a function of the program and of the two flags that may change it - not of the sink.
-Emitted(c) == [pk |-> c.pk, pn |-> c.pn, why |-> c.why, std |-> c.std, req |-> c.req, nostd |-> c.nostd]
+\* (--require enters through the module it names: two spellings of the same module give the same program)
+Emitted(c) == [pk |-> c.pk, pn |-> c.pn, why |-> c.why, std |-> c.std, req |-> c.req, module |-> ExpectedModule(c), nostd |-> c.nostd]
 RequireCount(c) == IF c.req THEN 1 ELSE 0
 
 \* the configuration with --no-std toggled
@@ -128,9 +151,8 @@ FlipNoStd(c) == [c EXCEPT !.nostd = ~c.nostd]
 
 \* Hyperproperties of the definitions above, checked by TLC over all configurations (ASSUME in MC_Driver)
 SinkIndependence ==
-    \A c1 \in AllConfigs, c2 \in AllConfigs :
-        (c1.pk = c2.pk /\ c1.pn = c2.pn /\ c1.why = c2.why /\ c1.std = c2.std /\ c1.req = c2.req /\ c1.nostd = c2.nostd)
-            => Emitted(c1) = Emitted(c2)
+    \A c \in AllConfigs : \A t \in 1..NSinks :
+        Emitted(c) = Emitted([c EXCEPT !.mode = Sinks[t].mode, !.path = Sinks[t].path])
 NoStdNeutralForStdFree ==
     \A c \in AllConfigs : ~c.std => /\ Eff(c) = Eff(FlipNoStd(c))
                                    /\ Success(c) = Success(FlipNoStd(c))
@@ -295,5 +317,5 @@ DriverContract == TypeOK /\ ExitIffSuccess /\ ErrorsPrinted /\ AllOrNothing /\ S
 
 \* what the conformance side must observe for this behaviour
 Expectation == [exit |-> exit, fs |-> fs, chunk |-> chunk, soprog |-> soprog, sorun |-> sorun,
-                errs |-> errs, printed |-> printed, requires |-> RequireCount(cfg), steps |-> hist]
+                errs |-> errs, printed |-> printed, requires |-> RequireCount(cfg), module |-> ExpectedModule(cfg), steps |-> hist]
 =============================================================================
